@@ -19,9 +19,14 @@ BigCases == {[pair |-> p, dx |-> dx, dy |-> dy, zoom |-> z, pad |-> o.pad, align
 PolarCases == {[pair |-> p, dx |-> dx, dy |-> dy, zoom |-> z, pad |-> o.pad, align |-> o.align] :
                  p \in {"4326>3413polar", "4326>3575polar", "4326>3031polar"}, dx \in {-2, 0, 3}, dy \in {-3, 0, 1, 4}, z \in {"same", "coarser"},
                  o \in {[pad |-> <<>>, align |-> <<>>], [pad |-> <<1>>, align |-> <<>>]}}
+\* a polar-projection raster CONTAINING the pole (inside the projection's valid area) read into small lon/lat rasters next to the pole (dy: how close,
+\* dx: which longitude sector).  Nothing is discontinuous in the projected pixel plane; the raster's lon/lat outline is (it winds round the pole).
+PoleCases == {[pair |-> p, dx |-> dx, dy |-> dy, zoom |-> z, pad |-> o.pad, align |-> o.align] :
+                p \in {"3031>4326pole", "3413>4326pole"}, dx \in {-1, 0, 1, 2}, dy \in {0, 1, 2}, z \in {"same", "coarser"},
+                o \in {[pad |-> <<>>, align |-> <<>>], [pad |-> <<1>>, align |-> <<>>]}}
 VARIABLE c
-Init == c \in {[k |-> p] : p \in Pairs \cup {"big", "polar"}}
-Next == "k" \in DOMAIN c /\ c' \in (IF c.k = "big" THEN BigCases ELSE IF c.k = "polar" THEN PolarCases ELSE {x \in Cases : x.pair = c.k}) /\ Emit(c')
+Init == c \in {[k |-> p] : p \in Pairs \cup {"big", "polar", "pole"}}
+Next == "k" \in DOMAIN c /\ c' \in (IF c.k = "big" THEN BigCases ELSE IF c.k = "polar" THEN PolarCases ELSE IF c.k = "pole" THEN PoleCases ELSE {x \in Cases : x.pair = c.k}) /\ Emit(c')
 Spec == Init /\ [][Next]_c
 
 =============================================================================
